@@ -180,12 +180,36 @@ fn cmd_run(a: &[String]) {
             }
         }
     });
-    let out = run_e1(prop, seed, cases, threads, true, 4000);
     let pid = format!("C{prop:02}");
     let dir = verif_dir();
     let known = load_known();
     let mut vio_lines = Vec::new();
     let mut seen = std::collections::HashSet::new();
+    // replay tier: every committed regression input of this property (seconds)
+    let mut replays_run = 0u32;
+    install_hooks();
+    if let Ok(rd) = std::fs::read_dir(format!("{dir}/replays/regress")) {
+        let mut files: Vec<_> = rd.flatten().map(|e| e.path()).filter(|p| p.extension().map_or(false, |e| e == "json")).collect();
+        files.sort();
+        for f in files {
+            let Ok(txt) = std::fs::read_to_string(&f) else { continue };
+            let Ok(v) = serde_json::from_str::<Value>(&txt) else { continue };
+            if v["property"].as_str() != Some(pid.as_str()) || v["engine"].as_str().unwrap_or("E1") != "E1" {
+                continue;
+            }
+            let Ok(case) = serde_json::from_value::<Case>(v["case"].clone()) else { continue };
+            replays_run += 1;
+            if let Ok(r) = run_one_checked(&case, false, true) {
+                for vi in violations_of(prop, &r) {
+                    let k = known.iter().any(|k| k.status == "known" && k.signature == vi.sig && k.property == pid);
+                    if !k && seen.insert(vi.sig.clone()) {
+                        vio_lines.push((vi.sig.clone(), vi.msg.clone(), f.display().to_string()));
+                    }
+                }
+            }
+        }
+    }
+    let out = run_e1(prop, seed, cases, threads, true, 4000);
     for f in &out.failures {
         if !seen.insert(f.sig.clone()) {
             continue;
@@ -239,6 +263,7 @@ fn cmd_run(a: &[String]) {
                 "other_oracle_hits": a.other_hits,
                 "aborted_cases": a.aborted,
                 "size_hints_checked": a.hints_checked,
+                "regression_replays_run": replays_run,
             },
             "assumptions": [
                 "exploration, not proof: results hold for the generated domain and case counts only",
